@@ -188,6 +188,52 @@ fn one(seed: u64, idx: u64, rep: &mut Report) {
     }
 }
 
+/// Seed corpus for the coverage-guided stage: valid request frames, alone and in sequences.
+pub fn dump_seeds(dir: &std::path::Path, seed: u64) {
+    let _ = std::fs::create_dir_all(dir);
+    let mut rng = Rng::derive(seed, 1212, 0);
+    for i in 0..32 {
+        let mut w = Vec::new();
+        for _ in 0..rng.range(1, 4) {
+            let _ = write_frame(&mut w, &valid_request(&mut rng));
+        }
+        let _ = std::fs::write(dir.join(format!("frames{i}")), &w);
+    }
+}
+
+/// Replay of libFuzzer artifacts / corpus files of the `frame` target through the ordinary oracle.
+pub fn replay_files(dir: &std::path::Path) -> Report {
+    let mut rep = Report::default();
+    let Ok(rd) = std::fs::read_dir(dir) else { return rep };
+    for e in rd.flatten() {
+        let Ok(input) = std::fs::read(e.path()) else { continue };
+        rep.evaluations += 1;
+        let name = e.file_name().to_string_lossy().into_owned();
+        let inp = input.clone();
+        let (r, st) = alloc_scope(|| {
+            guarded(move || {
+                let mut c = Cursor::new(&inp);
+                let mut n = 0;
+                while let Ok(Some(_)) = read_frame::<_, Request>(&mut c) {
+                    n += 1;
+                }
+                n
+            })
+        });
+        rep.max("max_single_alloc_in_read_frame", st.max_request as u64);
+        match r {
+            Caught::Ok(n) => rep.count("replayed_frames_decoded", n as u64),
+            Caught::Panicked(p) => rep.violation("C12|read_frame|panic", json!({"file": name, "input_hex": hex(&input[..input.len().min(128)]), "panic": p})),
+        }
+        // every length prefix on the way is <= MAX_FRAME or the call errs; an allocation above the bound + slack is a violation
+        if st.max_request > (MAX_FRAME as usize) * 3 {
+            rep.violation("C12|read_frame|allocation-far-above-frame-bound", json!({"file": name, "max_request": st.max_request}));
+        }
+        rep.distinct.insert(format!("replay|{}", if name.starts_with("crash") { "crash" } else if name.starts_with("oom") { "oom" } else { "corpus" }));
+    }
+    rep
+}
+
 pub fn run(seed: u64, thorough: bool, cases: Option<u64>) -> Report {
     let n = cases.unwrap_or(if thorough { 300_000 } else { 10_000 });
     par_cases(n, |i, r| one(seed, i, r))
